@@ -12,6 +12,12 @@
              effects interpreted abstractly for several shapes of Y'.
   C05.EVAL   the evaluator applies all steps in list order on a fresh stack and requires one
              residual value; finalize() drains the operator stack LIFO; one name -> one fetcher.
+  C05.TOK    the tokenizer's character iterator reads string[pos] only while pos < len(that same string).
+  C05.ALIGN  the operands of one evaluation belong to one timestamp (first-run synchronisation; shared
+             with C06.SYNC).
+
+Roles are bound by dataflow (sa/props/_c06_util.py); the shift/reduce decision is obtained by
+interpreting push_oper (private helpers spliced in) on each (stack top, incoming) scenario.
 """
 from __future__ import annotations
 
